@@ -413,6 +413,29 @@ class Mat:
     def flatten(self):
         return Arr([v for r in self.rows for v in r])
 
+    def _ew(self, other, op, rev=False):
+        if isinstance(other, Mat):
+            if other.shape != self.shape:
+                raise ModelFault("ValueError", "operands could not be "
+                                 "broadcast together")
+            return Mat([[op(b, a) if rev else op(a, b)
+                         for a, b in zip(r1, r2)]
+                        for r1, r2 in zip(self.rows, other.rows)])
+        if isinstance(other, (Arr, list, tuple)):
+            raise AnalysisError("matrix/vector broadcasting not modelled")
+        return Mat([[op(other, a) if rev else op(a, other) for a in r]
+                    for r in self.rows])
+
+    def __add__(self, o): return self._ew(o, operator.add)
+    def __radd__(self, o): return self._ew(o, operator.add, True)
+    def __sub__(self, o): return self._ew(o, operator.sub)
+    def __rsub__(self, o): return self._ew(o, operator.sub, True)
+    def __mul__(self, o): return self._ew(o, operator.mul)
+    def __rmul__(self, o): return self._ew(o, operator.mul, True)
+    def __truediv__(self, o): return self._ew(o, operator.truediv)
+    def __neg__(self): return Mat([[-a for a in r] for r in self.rows])
+    __array_priority__ = 100
+
     @property
     def T(self):
         return Mat([list(c) for c in zip(*self.rows)])
